@@ -15,6 +15,7 @@ RULE = (
     "file vs temporary, probe points present/absent, progress_interval); resume case = fixed-dt, time-independent drive, all splits N1+N2 drawn, "
     "second part seeded with the first part's Solution (as returned, or read back from its file), continued 1..3 times from that same saved state; non-trivial = the two configurations differ in save_every and share >= 2 step labels, "
     "or a resume with N1, N2 >= 2; distinct by spec hash"
+    "; two resume cases in five use time steps 1e-6..1e-3 of the stability scale; the saved state may be inspected through eleven read-only views before it is continued"
 )
 ASSUMPTIONS = [
     "bit-identity is compared on psi, mu, supercurrent, normal current and induced vector potential of frames with equal step labels",
